@@ -10,3 +10,7 @@ import QlibcModel.Props.C08
 #print axioms Qlibc.Props.C08.save_load
 #print axioms Qlibc.Props.C08.history_refines
 #print axioms Qlibc.Props.C08.reachable_inv
+#print axioms Qlibc.Props.C08.getint_spec
+#print axioms Qlibc.Props.C08.null_args_rejected
+#print axioms Qlibc.Props.C08.inv_is_identity
+#print axioms Qlibc.Props.C08.getmulti_null_name
